@@ -156,7 +156,7 @@ def _lib_name(prog: Program, fn: Func, call: ast.Call) -> Optional[str]:
     return d
 
 
-LATER_RULES = ' Later rules: R11.3 also demands that restored spellings are drawn from a collection validated against the value; (R11.4) the minimum indentation over all lines is only used in a dedent/indent inverse pair; R11.1 (iv) a token-blind stage is accepted when its result is used only under a positive comparison of the syntax trees of input and result; (R11.5) the wrapped code of a statement is used only under that comparison.'
+LATER_RULES = ' Later rules: R11.3 also demands that restored spellings are drawn from a collection validated against the value; (R11.4) the minimum indentation over all lines is only used in a dedent/indent inverse pair; R11.1 (iv) a token-blind stage is accepted when its result is used only under a positive comparison of the syntax trees of input and result; (R11.5) the wrapped code of a statement is used only under that comparison. (R11.6) where the lines of replacement code are re-indented, trailing blanks are stripped only from lines that do not end inside a string literal. (R11.7) the tree comparison parses the two texts as they are (at most behind a prefix line): no dedent / strip / expandtabs / substitution before parsing.'
 
 
 def check(prog: Program, tier: str) -> Result:
@@ -274,11 +274,105 @@ def check(prog: Program, tier: str) -> Result:
     _r11_3(prog, res)
     _r11_4(prog, res)
     _r11_5(prog, res)
+    _r11_6(prog, res)
+    _r11_7(prog, res)
+    res.floors["R11.6"] = 1
+    res.floors["R11.7"] = 1
     res.floors["R11.3"] = 1
     res.floors["R11.4"] = 2
     res.floors["R11.5"] = 1
     res.analysed.update({"transformation_calls": n_calls, "functions_reachable_from_format_code": len(reach)})
     return res
+
+
+# ------------------------------------------------------------------------------------------------ R11.6
+def _r11_6(prog: Program, res: Result) -> None:
+    """_do_rewrite re-indents the lines of replacement code and exempts the lines that begin inside a string literal (R11.2).
+    The same goes for the END of a line: `.rstrip()` of a line that ends inside a multi-line literal removes blanks that are
+    part of the value (a triple-quoted literal with a line of blanks in it).  Obligation: in the function that holds the
+    string-token loop, every rstrip / strip of the re-joined code lines is conditional on a membership test of the line index
+    in a set that is filled inside that token loop."""
+    n = 0
+    for fn in prog.funcs.values():
+        tok_loops = [l for l in walk_own(fn.node) if isinstance(l, ast.For) and "generate_tokens" in norm(l.iter)]
+        if not tok_loops:
+            continue
+        filled = set()
+        for l in tok_loops:
+            for c in ast.walk(l):
+                if isinstance(c, ast.Call) and isinstance(c.func, ast.Attribute) and c.func.attr in ("add", "update") and isinstance(c.func.value, ast.Name):
+                    filled.add(c.func.value.id)
+        for j in walk_own(fn.node):
+            if not (isinstance(j, ast.Call) and isinstance(j.func, ast.Attribute) and j.func.attr == "join" and j.args and isinstance(j.args[0], (ast.GeneratorExp, ast.ListComp))):
+                continue
+            comp = j.args[0]
+            strips = [c for c in ast.walk(comp.elt) if isinstance(c, ast.Call) and isinstance(c.func, ast.Attribute) and c.func.attr in ("rstrip", "strip") and not c.args]
+            if not strips:
+                continue
+            idx_names = {x.id for g in comp.generators for x in ast.walk(g.target) if isinstance(x, ast.Name)}
+            for sc in strips:
+                n += 1
+                guarded = False
+                a = parent(sc)
+                while a is not None and a is not comp:
+                    if isinstance(a, ast.IfExp):
+                        t = a.test
+                        if isinstance(t, ast.Compare) and len(t.ops) == 1 and isinstance(t.ops[0], (ast.In, ast.NotIn)) and isinstance(t.left, ast.Name) and t.left.id in idx_names \
+                                and isinstance(t.comparators[0], ast.Name) and t.comparators[0].id in filled:
+                            in_else = any(x is sc for x in ast.walk(a.orelse))
+                            guarded = in_else if isinstance(t.ops[0], ast.In) else not in_else
+                    a = parent(a)
+                res.decide(guarded, "R11.6", fn.loc(sc), fn.fq, f"{short(sc, 60)} # trailing blanks of re-indented code lines",
+                           "not applied to lines that end inside a string literal" if guarded else
+                           "every line of the replacement code is stripped of trailing blanks, also the lines that END inside a multi-line string literal: blanks at the end of "
+                           "a line of the literal, and whitespace-only lines in it, are part of its value")
+    if n == 0:
+        res.undecided("R11.6", "pyrefact/processing.py:0", "processing", "re-indentation of replacement code", "no stripped join of code lines next to a string-token loop")
+
+
+# ------------------------------------------------------------------------------------------------ R11.7
+def _r11_7(prog: Program, res: Result) -> None:
+    """The tree comparison is the fence of every token-blind stage.  It sees exactly what survives its own preparation of the
+    two texts: if it dedents (textwrap.dedent turns whitespace-only lines into empty ones, also inside literals), strips,
+    expands tabs or substitutes before parsing, the same change made by the guarded stage is invisible.  Obligation: every
+    text handed to ast.parse in the oracle (and the helpers it calls with its parameters) is the parameter itself or the
+    parameter behind a constant prefix (an `if True:` line in front of an indented snippet)."""
+    n = 0
+    for f in prog.funcs.values():
+        if not _is_tree_comparison(prog, f):
+            continue
+        helpers = [f]
+        for c in prog.calls_in(f):
+            r = prog.resolve_call(c.func, f.mod, f)
+            if r and r[0] == "fn" and r[1].key != f.key and r[1].key not in {h_.key for h_ in helpers} and any(isinstance(a, ast.Name) and a.id in f.posparams[:2] for a in c.args):
+                helpers.append(r[1])
+        for h in helpers:
+            params = set(h.all_params)
+
+            def plain_text(e: ast.AST, depth: int = 0) -> bool:
+                if isinstance(e, ast.Name):
+                    if e.id in params:
+                        return True
+                    if depth > 3:
+                        return False
+                    for l in walk_own(h.node):
+                        if isinstance(l, (ast.For, ast.AsyncFor)) and isinstance(l.target, ast.Name) and l.target.id == e.id:
+                            return isinstance(l.iter, (ast.Tuple, ast.List)) and all(plain_text(x, depth + 1) for x in l.iter.elts)
+                    vals = [v for _st, v in assignments(h, e.id)]
+                    return bool(vals) and all(v is not None and plain_text(v, depth + 1) for v in vals)
+                if isinstance(e, ast.BinOp) and isinstance(e.op, ast.Add) and isinstance(e.left, ast.Constant) and isinstance(e.left.value, str):
+                    return plain_text(e.right, depth + 1)
+                return False
+            for c in prog.calls_in(h):
+                if norm(c.func) == "ast.parse" and c.args:
+                    n += 1
+                    ok = plain_text(c.args[0])
+                    res.decide(ok, "R11.7", h.loc(c), h.fq, f"{short(c, 60)} # what the tree comparison parses",
+                               "the text as it is (at most behind a constant prefix line)" if ok else
+                               "the text is transformed before it is parsed (dedent / strip / expandtabs / substitution): what that transformation changes - whitespace-only lines "
+                               "and indentation INSIDE multi-line literals - is changed on both sides of the comparison, so a stage that makes the same change passes the fence")
+    if n == 0:
+        res.undecided("R11.7", "pyrefact/core.py:0", "core", "what the tree comparison parses", "no ast.parse in the comparison oracle or its helpers")
 
 
 # ------------------------------------------------------------------------------------------------ R11.3
@@ -744,6 +838,11 @@ def _r11_4(prog: Program, res: Result) -> None:
 from ..selftest import Variant  # noqa: E402
 
 VARIANTS = [
+    Variant("tree-comparison-dedents-before-parsing", "FIRE", "core", '    for candidate in (source, "if True:\\n" + source):', '    for candidate in (source, textwrap.dedent(source), "if True:\\n" + source):', "R11.7"),
+    Variant("tree-comparison-strips-before-parsing", "FIRE", "core", "            root = ast.parse(candidate)\n        except (SyntaxError, ValueError, RecursionError, MemoryError):\n            continue\n\n        # Whitespace inside docstrings", "            root = ast.parse(candidate.strip())\n        except (SyntaxError, ValueError, RecursionError, MemoryError):\n            continue\n\n        # Whitespace inside docstrings", "R11.7"),
+    Variant("every-code-line-stripped-of-trailing-blanks", "FIRE", "processing", "        f\"{' ' * indents[i]}{code}\"\n        if i in ends_inside_string\n        else f\"{' ' * indents[i]}{code}\".rstrip()", "        f\"{' ' * indents[i]}{code}\".rstrip()", "R11.6"),
+    Variant("trailing-blanks-test-written-the-other-way-round", "SILENT", "processing", "        f\"{' ' * indents[i]}{code}\"\n        if i in ends_inside_string\n        else f\"{' ' * indents[i]}{code}\".rstrip() + (\"\\n\" if code.endswith(\"\\n\") else \"\")\n",
+            "        f\"{' ' * indents[i]}{code}\".rstrip() + (\"\\n\" if code.endswith(\"\\n\") else \"\")\n        if i not in ends_inside_string\n        else f\"{' ' * indents[i]}{code}\"\n"),
     Variant("tab-expansion-unfenced-again", "FIRE", "main", "    source = _apply_layout_stage(functools.partial(str.expandtabs, tabsize=4), source)\n", "    source = source.expandtabs(4)\n", "R11.1"),
     Variant("trailing-blanks-unfenced-again", "FIRE", "main", "    source = fixes.fix_line_lengths(source, max_line_length=max_line_length)\n    source = _apply_layout_stage(rmspace.format_str, source)\n", "    source = fixes.fix_line_lengths(source, max_line_length=max_line_length)\n    source = rmspace.format_str(source)\n", "R11.1"),
     Variant("layout-helper-forgets-the-comparison", "FIRE", "main", "    new_source = stage(source)\n    if core.keeps_syntax_tree(source, new_source):\n        return new_source\n\n    return source\n", "    new_source = stage(source)\n    if new_source:\n        return new_source\n\n    return source\n", "R11.1"),
